@@ -170,11 +170,12 @@ def build_block(bs, built):
             kw['mode'] = bs['mode']
         if bs.get('alignment') is not None:
             kw['alignment'] = bs['alignment']
-        b = sp.Merge(inner, cs, **kw)
+        # (without the optional argument when there are no constraints, as users write it)
+        b = sp.Merge(inner, cs, **kw) if cs else sp.Merge(inner, **kw)
     elif kind == 'nest':
         outer = build_block(bs['outer'], built)
         inner = build_block(bs['inner'], built)
-        b = sp.Nest(outer, inner, cs)
+        b = sp.Nest(outer, inner, cs) if cs else sp.Nest(outer, inner)
     else:
         raise ValueError(kind)
     built.blocks.append(b)
